@@ -9,7 +9,7 @@ VERIF = os.path.dirname(os.path.dirname(os.path.abspath(__file__)))
 
 CLAIMS = {
     'C01': dict(
-        text='Deductive proof (Verus) of the cursor discipline of the sequential message parser, of field extraction (which text is the content of the field at the cursor and how far the cursor moves), of the completeness / repetition-cap obligations and of the field-count linearity obligation (every field occurrence handed out by the parser is stored in the returned value) at every Ok exit of the 30 extracted parse_from_block4 bodies.',
+        text='Deductive proof (Verus) of the cursor discipline of the sequential message parser, of field extraction (which text is the content of the field at the cursor and how far the cursor moves), of the completeness / repetition-cap obligations and of the field-count linearity obligation (every field occurrence handed out by the parser is stored in the returned value) at every Ok exit of the 30 extracted parse_from_block4 bodies; the message serialisers write the fields in the order the parsers read them (layout contracts shared with C02).',
         note='Trusted: std string search/trim contracts in verus/prelude.rs, field parsers abstracted by the SwiftField trait contract, Verus/Z3.',
         design='DESIGN.md §5 C01', technique='contract-based deductive verification (Verus) of extracted real functions'),
     'C02': dict(
